@@ -46,9 +46,17 @@ CONFIG = dict(
     assumptions=["'sphinx' is not in sys.modules; warnings are not turned into errors (no -W error)",
                  "all other modules of the process carry no pending glue while a case runs (ensured by a warm-up scan)",
                  "a module's _stackscope_install_glue_ is present when the module is inserted (not added later)"],
-    unproved_legs=["C17_timely is proved for sequential histories (extractions that run to completion without "
-                   "interleaving: C17_timely_partial); the concurrent statement is checked by the direct oracle on the "
-                   "checkpoint-driven schedules only"],
+    unproved_legs=["C17_timely (concurrent and sequential): NOT proved in Coq -- statement and proof route are in coq/C17.v; "
+                   "only its refutation without the hypothesis (C17_F4_refuted) is proved. Checked by the direct oracle "
+                   "(ground truth read from the real sys.modules / module dicts / pending table at the start of every "
+                   "extraction) on every generated history and schedule whose descriptor does not match the F4 signature",
+                   "C17_never_both under 'registered before first import': NOT proved in Coq (refutation without the "
+                   "hypothesis proved: C17_never_both_refuted); checked by the direct oracle on every case",
+                   "C17_at_most_once is proved for module-provided glue functions (per module object); for built-in "
+                   "functions it is checked by the direct oracle only",
+                   "C17_failure_is_warning: the warning step is proved for every state; 'the remaining names are still "
+                   "processed and the cache is written' is proved for the scanning thread running on its own "
+                   "(C17_failure_scan_completes), not under interleaving with BaseException-raising glue of other threads"],
     NOTES=("Deviation from DESIGN: the two pops of one loop iteration are ONE model step (no checkpoint separates them, so "
            "no schedule between them can be realised against the code); never_both needs the hypothesis that built-in glue "
            "is registered before the module is first imported -- a registration for an already imported module runs the "
@@ -83,6 +91,14 @@ def f4_pattern(desc) -> bool:
     module is inserted.  Concurrent cases / side effects: any removal at all (conservative)."""
     eff = _effects(desc)
     if any(e[0] == "R" for e in eff):
+        return True
+    # a glue function that re-binds a name which some other op binds to a different module object
+    # replaces a module while a scan may be running (replacement = removal + insertion, len unchanged)
+    byname = {}
+    for op in _all_ops(desc) + eff:
+        if op[0] == "I":
+            byname.setdefault(op[1], set()).add(op[2])
+    if any(e[0] == "I" and len(byname[e[1]]) > 1 for e in eff):
         return True
     if desc["mode"] != "seq":
         present = {}
